@@ -186,7 +186,9 @@ func parseCredential(b []byte, p *int, c *CCache, e *binary.ByteOrder) (cred *Cr
 		cred.IsSKey = true
 	}
 	cred.TicketFlags = types.NewKrbFlags()
-	cred.TicketFlags.Bytes = readBytes(b, p, 4, e)
+	// The ticket flags are a 32 bit integer in the byte order of the file (native order for
+	// versions 1 and 2); the bit string holds them most significant byte first.
+	binary.BigEndian.PutUint32(cred.TicketFlags.Bytes, uint32(readInt32(b, p, e)))
 	l := int(readInt32(b, p, e))
 	checkCount(b, p, l)
 	cred.Addresses = make([]types.HostAddress, l, l)
